@@ -264,6 +264,17 @@ def make_case(rng, kind):
         if rng.random() < 0.5:
             tp = rng.choice(sorted(A))
             ops.append(T("consumer_op", [T("seek", [tp[0], tp[1], 5000 + rng.randint(0, 9)])]))
+        if rng.random() < 0.4:
+            # the cluster adds partitions to the topics after the consumer was created and the consumer's client reloads its metadata:
+            # the set consumed - and reported - stays the one fixed at creation
+            grown = {t: list(ls) + [rng.randint(1, nb) for _ in range(rng.randint(1, 2))] if (t in atopics and rng.random() < 0.7) else list(ls)
+                     for t, ls in topics.items()}
+            body = {"brokers": [{"node_id": n, "host": h, "port": p} for n, (h, p) in sorted(spec["brokers"].items())],
+                    "topics": [{"error": 0, "topic": t, "partitions": [{"error": 0 if l >= 0 else 5, "id": i, "leader": l, "replicas": [], "isr": []}
+                                                                        for i, l in enumerate(ls)]} for t, ls in sorted(grown.items())]}
+            ops += [{"op": T("load_metadata_all"), "mutate": {"kind": "body", "api": "metadata", "body": body}},
+                    T("consumer_op", [T("subscriptions")])]
+            meta["grown"] = True
         ops += [T("poll"), T("consumer_op", [T("subscriptions")])]
     return {"cluster": spec, "ops": ops, "meta": meta}
 
